@@ -127,6 +127,17 @@ impl Report {
       );
     }
 
+    // failures of the machinery itself (a scenario that could not be set up, a harness panic)
+    // are never verdicts about ord: they end the run with exit 2 and a MACHINERY line
+    let (machinery, unknown): (Vec<Violation>, Vec<Violation>) = unknown.into_iter().partition(|v| v.class.contains("machinery"));
+    let mut machinery_classes: BTreeMap<String, String> = BTreeMap::new();
+    for v in &machinery {
+      machinery_classes.entry(v.class.clone()).or_insert(v.what.clone());
+    }
+    for (class, what) in &machinery_classes {
+      println!("MACHINERY: {class}: {what}");
+    }
+
     // deduplicate unknown violations by class, keep the first (smallest) of each
     let mut by_class: BTreeMap<String, Violation> = BTreeMap::new();
     for v in unknown {
@@ -134,7 +145,7 @@ impl Report {
     }
 
     let replay_dir = PathBuf::from(VERIF).join("replays").join(&self.property);
-    let mut exit = 0;
+    let mut exit = if machinery_classes.is_empty() { 0 } else { 2 };
     for (i, (class, v)) in by_class.iter().enumerate() {
       exit = 1;
       let _ = fs::create_dir_all(&replay_dir);
@@ -200,7 +211,11 @@ impl Report {
 
     println!(
       "{} property={} tier={} wall={:.1}s evidence={}",
-      if exit == 0 { "OK" } else { "FAIL" },
+      match exit {
+        0 => "OK",
+        2 => "BROKEN (machinery failure, no verdict)",
+        _ => "FAIL",
+      },
       self.property,
       self.tier,
       self.start.elapsed().as_secs_f64(),
